@@ -70,10 +70,11 @@ Todo == {h \in snap : h.id \notin done}
 \* conditions are evaluated at the handler's turn against the MERGED kwargs: codes 0/1 require the posted kwarg c to have
 \* that value; 2 requires a = "h" (true exactly for a handler registered with its own a); 3 requires a = "p" (the posted
 \* value: no own a, and no earlier relay handler has replaced it)
-CondOK(h) == \/ h.cond = -1 \/ (h.cond \in {0, 1} /\ h.cond = inst[cur].c)
+\* (code 9 = a condition the recorder of the repository's own tests cannot judge: the handler may or may not be called)
+CondOK(h) == \/ h.cond = -1 \/ h.cond = 9 \/ (h.cond \in {0, 1} /\ h.cond = inst[cur].c)
              \/ (h.cond = 2 /\ h.hk) \/ (h.cond = 3 /\ ~h.hk /\ relay = "p")
 \* a handler may be passed over if its condition is false or it has been removed meanwhile
-Skippable(h) == ~CondOK(h) \/ h.id \notin Ids(reg)
+Skippable(h) == ~CondOK(h) \/ h.cond = 9 \/ h.id \notin Ids(reg)
 \* next handler: highest priority among those not yet invoked/skipped and not skippable
 Invoke(h) ==
     /\ cur # 0 /\ inh = "" /\ ~stopped /\ h \in Todo /\ CondOK(h)
